@@ -66,6 +66,12 @@ fn start_positions() -> Vec<usize> {
         usize::MAX - 2,
         usize::MAX - 1,
         usize::MAX,
+        // narrower counters would wrap here
+        (1 << 32) - 1,
+        1 << 32,
+        (1 << 31) - 1,
+        (1 << 16) - 1,
+        (1 << 8) - 1,
     ]
 }
 
@@ -409,6 +415,8 @@ pub fn generate(workload: Workload, subject: SubjectKind, seed: u64) -> (Config,
         6..=8 => r.range(30, 80),
         _ => r.range(80, 200),
     } as usize;
+    // a thin tail of very long histories
+    let long_tail = r.chance(1, 400);
     let mut trace: Vec<Op> = vec![];
 
     // construction
@@ -919,6 +927,10 @@ pub fn generate(workload: Workload, subject: SubjectKind, seed: u64) -> (Config,
         cfg.cap = cfg.initial.len();
     }
 
+    if long_tail && n_ops > 0 {
+        n_ops *= 25;
+        w.cancel = 0;
+    }
     let mut cancelled = false;
     for _ in 0..n_ops {
         let op = pick_op(r, &w, &m, src);
